@@ -116,3 +116,32 @@ func Render(ms int64, picture, zone string) (string, error) {
 	}
 	return picture + zone + strings.Repeat("0", int(ms%3)), nil
 }
+
+// Uniq tests and sets.
+func Uniq(groups [][]string) []string {
+	seen := map[string]bool{}
+	var out []string
+	for _, g := range groups {
+		for _, s := range g {
+			if !seen[s] {
+				seen[s] = true
+				out = append(out, s)
+			}
+		}
+	}
+	return out
+}
+
+type node interface{ tidy() (node, error) }
+
+// TidyAll stops at the first failure.
+func TidyAll(ns []node) error {
+	var err error
+	for i := range ns {
+		ns[i], err = ns[i].tidy()
+		if err != nil {
+			return err
+		}
+	}
+	return nil
+}
